@@ -142,6 +142,7 @@ func describeSite(w wireSite) string {
 // stripConvs removes integer conversions.
 func stripConvs(v ssa.Value) ssa.Value {
 	for i := 0; i < 6; i++ {
+		v = canonPhi(v)
 		switch x := v.(type) {
 		case *ssa.Convert:
 			v = x.X
